@@ -74,14 +74,15 @@ func golangTrackerLocalName(tracker namer.ImportTracker, t types.Name) string {
 		// packages, but aren't legal go names. So we'll sanitize.
 		name = strings.Replace(name, ".", "", -1)
 		name = strings.Replace(name, "-", "", -1)
+		// If the import name is a Go keyword, prefix with an underscore.
+		// (Before looking for collisions: two packages whose names are
+		// the same keyword must not both be called "_keyword".)
+		if token.Lookup(name).IsKeyword() {
+			name = "_" + name
+		}
 		if _, found := tracker.PathOf(name); found {
 			// This name collides with some other package
 			continue
-		}
-
-		// If the import name is a Go keyword, prefix with an underscore.
-		if token.Lookup(name).IsKeyword() {
-			name = "_" + name
 		}
 		return name
 	}
